@@ -203,6 +203,13 @@ func (w *World) VerifyFunc(fn *ssa.Function, mode *Mode, prop string) (x *X, err
 		}
 	}
 	x.retPC = rpc
+	if mode.Functional && len(x.requires) > 0 {
+		// vacuity guard: the preconditions (with the axioms) must be satisfiable, and so must
+		// "the function returns" - a contradictory requires would make every obligation hold
+		o := &Obligation{Name: x.root + "#vacuity[requires-satisfiable]", Kind: "vacuity", Func: x.root, Pos: w.pos(fn.Pos()), Guard: B.And(x.requires...), Cond: B.False(), NAssum: len(x.assums)}
+		o.Extra = map[string]string{"what": "the conjunction of the requires clauses is contradictory (every obligation would hold vacuously)"}
+		x.obligs = append(x.obligs, o)
+	}
 	return x, nil
 }
 
@@ -370,6 +377,10 @@ func (x *X) discharge(timeout time.Duration, workers int) []*OblResult {
 	for i, o := range x.obligs {
 		r := &OblResult{Obl: o}
 		results[i] = r
+		if o.Kind == "vacuity" {
+			jobs = append(jobs, i)
+			continue
+		}
 		if o.Cond.IsTrue() || o.Guard.IsFalse() || x.B.Implies(o.Guard, o.Cond).IsTrue() {
 			r.Status = "trivial"
 			r.Solver = "simplifier"
@@ -386,6 +397,22 @@ func (x *X) discharge(timeout time.Duration, workers int) []*OblResult {
 			defer wg.Done()
 			for i := range ch {
 				r := results[i]
+				if r.Obl.Kind == "vacuity" {
+					// satisfiable (or not refutable) = fine; only a proof of unsatisfiability is a failure
+					mu.Lock()
+					qf, _, _ := x.buildQuery(r.Obl, false, true)
+					mu.Unlock()
+					r.Size = len(qf)
+					sr := Solve(qf, fmt.Sprintf("%s_%d_vac", x.root, i), timeout)
+					r.Solver, r.Seconds, r.Raw = sr.Solver, sr.Seconds, sr.Raw
+					if sr.Status == "unsat" {
+						r.Status = "failed"
+						r.Raw = "the requires clauses are unsatisfiable\n" + sr.Raw
+					} else {
+						r.Status = "discharged"
+					}
+					continue
+				}
 				mu.Lock()
 				qfScript, _, dropped := x.buildQuery(r.Obl, true, true)
 				mu.Unlock()
@@ -438,7 +465,7 @@ func (x *X) discharge(timeout time.Duration, workers int) []*OblResult {
 	var again []int
 	for _, i := range jobs {
 		r := results[i]
-		if r.Status == "unknown" || (r.Status == "failed" && strings.HasPrefix(r.Raw, "model of the quantifier-free relaxation")) {
+		if r.Obl.Kind != "vacuity" && (r.Status == "unknown" || (r.Status == "failed" && strings.HasPrefix(r.Raw, "model of the quantifier-free relaxation"))) {
 			again = append(again, i)
 		}
 	}
